@@ -130,4 +130,75 @@ theorem ssa_mem_applyMf (mf : List String) : ssaManager ∈ applyMf mf := by
   · simp
   · exact mem_touchMgr _ _
 
+/-! ### server-side Sync: the forced apply comes after an accepted Update(claim) (helper lemmas) -/
+
+/-- along the run of `p` in which every request `r` is answered `reply r` (any replies: errors of any class,
+stale or fresh objects), every forced apply of an XR comes after an `Update(claim)` of the same run that the
+server ACCEPTED (answered with the stored claim); `seen` = such an update has already happened -/
+def applyAfterUpd (reply : Req → Resp) : Nat → Bool → P → Bool
+  | 0, _, _ => true
+  | _, _, .ret _ => true
+  | f + 1, seen, .call r k =>
+    (match r with | .applyXR _ _ => seen | _ => true) &&
+    applyAfterUpd reply f (seen || (match r, reply r with | .updClaim _, .claim _ => true | _, _ => false)) (k (reply r))
+
+theorem applyAfterUpd_seen (reply : Req → Resp) (f : Nat) (p : P) : applyAfterUpd reply f true p = true := by
+  induction f generalizing p with
+  | zero => rfl
+  | succ f ih =>
+    cases p with
+    | ret a => rfl
+    | call r k =>
+      simp only [applyAfterUpd, Bool.true_or, ih, Bool.and_true]
+      cases r <;> rfl
+
+theorem applyAfterUpd_statusThen (reply : Req → Resp) (f : Nat) (b : Bool) (cm : Claim) (r : Res) :
+    applyAfterUpd reply f b (statusThen cm r) = true := by
+  cases f with
+  | zero => rfl
+  | succ f =>
+    simp only [statusThen, applyAfterUpd, Bool.true_and]
+    cases f with
+    | zero => rfl
+    | succ f => cases reply (.updClaimStatus cm.rv) <;> rfl
+
+theorem applyAfterUpd_failWith (reply : Req → Resp) (f : Nat) (b : Bool) (cm : Claim) (e : Err) :
+    applyAfterUpd reply f b (failWith cm e) = true := by
+  cases e <;> first
+    | exact applyAfterUpd_statusThen reply f b cm .requeue
+    | (cases f <;> rfl)
+
+theorem applyAfterUpd_ssaBind (reply : Req → Resp) (f : Nat) (cfg : Cfg) (cm : Claim) (n : Name) :
+    applyAfterUpd reply f false (ssaBind cfg cm n) = true := by
+  cases f with
+  | zero => rfl
+  | succ f =>
+    simp only [ssaBind, applyAfterUpd, Bool.true_and, Bool.false_or]
+    cases reply (.updClaim { cm with ref := some (mkXRef cfg.xrt n) }) with
+    | claim c => exact applyAfterUpd_seen reply f _
+    | err e => exact applyAfterUpd_failWith reply f _ cm e
+    | xr x => cases f <;> rfl
+    | ok => cases f <;> rfl
+
+theorem applyAfterUpd_genName (reply : Req → Resp) (xpick : Nat → Option (List (Option XR) → Option (Option XR)))
+    (k : Option Name → P) (hk : ∀ f o, applyAfterUpd reply f false (k o) = true) (t : Nat) :
+    ∀ (f j : Nat) (cands : List Name), applyAfterUpd reply f false (genName xpick t j cands k) = true := by
+  induction t with
+  | zero => intro f j cands; unfold genName; exact hk f none
+  | succ t ih =>
+    intro f j cands
+    cases cands with
+    | nil => unfold genName; exact hk f none
+    | cons c cs =>
+      unfold genName
+      cases f with
+      | zero => rfl
+      | succ f =>
+        simp only [applyAfterUpd, Bool.true_and, Bool.false_or]
+        cases hr : reply (.getXR c (xpick j)) with
+        | claim x => exact hk f none
+        | ok => exact hk f none
+        | xr x => exact ih f (j + 1) cs
+        | err e => cases e <;> first | exact hk f (some c) | exact hk f none
+
 end Xp.C06
